@@ -5,6 +5,7 @@ package c14
 import (
 	"fmt"
 	"net"
+	"runtime/debug"
 	"sync"
 	"testing"
 	"time"
@@ -28,6 +29,9 @@ type history struct {
 	// Refused: after every batch of working connections as many requests that the server has to refuse:
 	// "unknown-channel" (a channel the server does not offer), "dead-target" (a channel whose target refuses)
 	Refused string `json:"refused_requests"`
+	// Forward: the client listener has a forward address that is reachable, so every connection is made directly
+	// (the client's direct path has its own copy loop and its own closes)
+	Forward bool `json:"listener_forwards_directly,omitempty"`
 }
 
 // refusedConn asks for something the server must refuse; the application connection has to end without data.
@@ -184,6 +188,12 @@ func TestReclaim(t *testing.T) {
 		h.Ending = endings[rapid.IntRange(0, len(endings)-1).Draw(rt, "ending")]
 		h.OpenAtEnd = []int{0, 0, 1, 3, 6}[rapid.IntRange(0, 4).Draw(rt, "openAtEnd")]
 		h.Refused = []string{"", "", "unknown-channel", "dead-target"}[rapid.IntRange(0, 3).Draw(rt, "refused")]
+		h.Forward = rapid.IntRange(0, 4).Draw(rt, "forward") == 0
+		if h.Forward {
+			// no physical session is involved: nothing to refuse, nothing to end
+			h.Refused = ""
+			h.Ending = "none"
+		}
 		viaRelay := h.Carrier != vlib.CarStdio
 		if !viaRelay && (h.Ending == "cut-rst" || h.Ending == "cut-fin" || h.Ending == "garbage" || h.Ending == "silent" || h.Ending == "outage-and-recovery") {
 			h.Ending = "server-shutdown"
@@ -200,12 +210,12 @@ func TestReclaim(t *testing.T) {
 		}
 
 		fail := func(msg string, extra map[string]interface{}) {
-			v := map[string]interface{}{"property": "C14", "history": h, "problem": msg, "goroutines": vlib.GoroutineSummary(12), "log": vlib.Tap.Tail(40)}
+			v := map[string]interface{}{"property": "C14", "history": h, "problem": msg, "goroutines": vlib.GoroutineSummary(12), "descriptors": vlib.FDSummary(), "log": vlib.Tap.Tail(40)}
 			for k, x := range extra {
 				v[k] = x
 			}
 			vlib.Rec.Violation(v)
-			rt.Fatalf("C14 %+v: %s\ngoroutines: %v\nlog: %v", h, msg, vlib.GoroutineSummary(12), vlib.Tap.Tail(40))
+			rt.Fatalf("C14 %+v: %s\ngoroutines: %v\ndescriptors: %v\nlog: %v", h, msg, vlib.GoroutineSummary(12), vlib.FDSummary(), vlib.Tap.Tail(40))
 		}
 
 		vlib.Tap.Reset()
@@ -214,6 +224,9 @@ func TestReclaim(t *testing.T) {
 		cfg := vlib.PairConfig{Carrier: h.Carrier, ClientInsecure: true, ViaRelay: viaRelay,
 			Channels:  []vlib.ChannelSpec{{Name: "data", Target: tgt.URL()}},
 			Listeners: []vlib.ListenerSpec{{Channel: "data"}}}
+		if h.Forward {
+			cfg.Listeners[0].Forward = tgt.URL()
+		}
 		var deadPort net.Listener
 		if h.Refused != "" {
 			// "nochan": a listener for a channel the server does not have; "dead": a channel whose target port is
@@ -246,11 +259,15 @@ func TestReclaim(t *testing.T) {
 		}
 		defer cleanup()
 
+		// A socket that is merely forgotten is closed by its finaliser at some later garbage collection; that is not
+		// "reclaimed when the connection ends". The collector is therefore switched off while connections are counted.
+		defer debug.SetGCPercent(debug.SetGCPercent(-1))
 		// warm-up: establishes the physical session and any lazily started workers
 		if msg := runConns(p, tgt, h, 3); msg != "" {
 			fail("warm-up connection failed: "+msg, nil)
 		}
 		idle := vlib.Quiesce(10 * time.Second)
+		idleFDs := vlib.FDSummary()
 
 		if msg := runConns(p, tgt, h, h.N1); msg != "" {
 			fail("connection failed: "+msg, nil)
@@ -262,6 +279,10 @@ func TestReclaim(t *testing.T) {
 		m2 := vlib.QuiesceBelow(vlib.Footprint{Goroutines: idle.Goroutines + slack, FDs: idle.FDs + slack}, 10*time.Second)
 
 		meas := map[string]interface{}{"before_pair": before.String(), "idle": idle.String(), "after_n1": m1.String(), "after_n2": m2.String()}
+		if m2.FDs > idle.FDs {
+			meas["descriptors_when_idle"] = idleFDs
+			meas["descriptors_after_n2"] = vlib.FDSummary()
+		}
 		// differential growth: 100 further connections may not cost more than 20 did, up to a small constant
 		g1g, g2g := m1.Goroutines-idle.Goroutines, m2.Goroutines-idle.Goroutines
 		g1f, g2f := m1.FDs-idle.FDs, m2.FDs-idle.FDs
@@ -380,7 +401,7 @@ func TestReclaim(t *testing.T) {
 			}
 		}
 		nontrivial := h.Closer != "app" || h.Ending != "none" || h.Refused != ""
-		labels := []string{"refused:" + h.Refused, "carrier:" + h.Carrier, "closer:" + h.Closer, "ending:" + h.Ending, fmt.Sprintf("overlap:%d", h.Overlap), fmt.Sprintf("open-at-end:%d", h.OpenAtEnd)}
+		labels := []string{"refused:" + h.Refused, fmt.Sprintf("forward:%v", h.Forward), "carrier:" + h.Carrier, "closer:" + h.Closer, "ending:" + h.Ending, fmt.Sprintf("overlap:%d", h.Overlap), fmt.Sprintf("open-at-end:%d", h.OpenAtEnd)}
 		if h.StartTLS {
 			labels = append(labels, "starttls")
 		}
